@@ -84,20 +84,22 @@ PROPS['C05']['bounded'].append({'args': ['faults'], 'classes': ['cache']})
 PROPS['C13']['bounded'].append({'args': ['regions'], 'classes': ['size-hint']})
 PROPS['C13'].update({
     'level': 'other',
-    'units': ['tree_iter'],
+    'units': ['tree_iter', 'tree_path'],
     'technique': 'Verus contracts on the extracted text of src/tree/iter.rs (step relations of DfsPre/DfsEdge/Bfs against a spec pre-order, skip_subtree, size-bound preservation) + bounded replay (bc traversal) for what the contracts do not reach',
     'level_text': ('Mixed. PROVED (Verus, all trees, all K, all start nodes, all positions): DfsPre::next / DfsEdge::next return the head of the remaining '
                    'pre-order `rem(stack)` of a spec traversal (children by ascending label, depth and remaining-sibling counters) and leave the tail to come; '
                    'skip_subtree drops exactly the entries pushed by the last next() (lemma: next then skip removes exactly pre_items(last) minus the item itself; a second '
                    'skip is a no-op); size_hint bounds are preserved by next and skip_subtree; Bfs::next / skip_subtree obey the queue discipline with correct '
-                   'depth / remaining-sibling counters; DfsEdge::new seeds from the given root. BOUNDED only (bc traversal, exhaustive small trees): the initial size bounds '
-                   'of new(), PolyhedraIter::size_hint, index-order iterators, num_nodes, num_terminals, depth, depth_stats, path_to_node.'),
+                   'depth / remaining-sibling counters; DfsEdge::new seeds from the given root; Tree::path_to_node (unit tree_path) returns Err exactly for unknown indices and otherwise the (node, label) steps from the root down to the node '
+                   '(path_ok: first entry is the root, each entry lists the next one under its label, the last lists the node), and terminates. BOUNDED only (bc traversal, exhaustive small trees): the initial size bounds '
+                   'of new(), PolyhedraIter::size_hint, index-order iterators, num_nodes, num_terminals, depth, depth_stats (iterator pipelines).'),
     'design_ref': 'DESIGN.md §4 C13',
     'assumptions': ASSUME_COMMON + ASSUME_SLAB + ASSUME_BC + [
         'rule T1: methods of `impl TraversalMut for X` are verified as inherent methods (trait dispatch in TraversalIter is a one-line delegation, not modelled)',
         'assume_specification for VecDeque::from([T; N]) (view equals the array); vstd specifications of Vec / VecDeque',
         'the remaining-sequence theorems are stated for every height map h with ranked_down(arena, h) (exists for every wf tree, part of wf)',
         'depth counters do not overflow: depth + height < usize::MAX (invariant dfs_inv)',
+        'unit tree_path: `path.reverse()` is the helper vec_reverse_pairs with the ASSUMED contract of std Vec::reverse; the capacity hint `(self.len() as f64).log(K as f64).ceil()` is dropped (rule D3)',
     ],
 })
 
@@ -178,7 +180,7 @@ ASSUME_PWL = [
 ]
 PROPS['C09'].update({
     'level': 'other',
-    'units': ['pwl_tree', 'tree_iter'],
+    'units': ['pwl_tree', 'tree_iter', 'tree_path'],
     'technique': 'Verus contracts on find_terminal / evaluate_decision / index_from_label / evaluate (label = decide(node, x), labels follow the path, evaluate == denoted partial function) + bounded replay (bc regions) for the polyhedra()/polyhedra_iter() streams',
     'level_text': ('Mixed. PROVED modulo "f64 = reals" (Verus, all trees of any shape / index layout, all inputs): index_from_label computes sum 2^i[b_i]; evaluate_decision returns decide(node, x) '
                    '(bit i set iff row_i.x <= b_i); find_terminal returns a terminal together with exactly the labels of a path from the start node to it such that every label is the one '
